@@ -456,7 +456,9 @@ func vcPollerDoneWithInput(mark uint64, c *connection) bool {
 			done = true
 		}
 	}
-	return lastIn == 0 || done
+	// no delivery event in the trace although bytes are buffered: the poller stands between publishing
+	// the bytes and recording the event (or inside the recording) - it is certainly not done
+	return lastIn != 0 && done
 }
 
 func vcIsErr(err, target error) bool { return err != nil && errors.Is(err, target) }
